@@ -71,6 +71,9 @@ instance (g : Ghost) (op : Op) : Decidable (OpOk g op) := by
   | alloc a k m r => unfold OpOk; infer_instance
   | dealloc a k => unfold OpOk; infer_instance
   | dtor a l => unfold OpOk; infer_instance
+  | markAbort m => unfold OpOk; infer_instance
+  | nulldel a => unfold OpOk; infer_instance
+  | delNull => unfold OpOk; infer_instance
 
 def WF.dec : ∀ (g : Ghost) (s : St) (ops : List Op), Decidable (WF g s ops)
   | _, _, [] => isTrue trivial
@@ -211,8 +214,8 @@ theorem allocBy_reg_sweep (s : St) (a : Addr) {k : Kind} (marks order : List Add
   have h' : s.mitems < s.reg.length + 1 := by omega
   cases k with
   | raw => exact absurd rfl hk
-  | std => simp [allocBy, gcSet, hr, h', Cfg.current]
-  | root => simp [allocBy, gcSet, hr, h', Cfg.current]
+  | std => simp [allocBy, gcSet, markBits, hr, h', Cfg.current]
+  | root => simp [allocBy, gcSet, markBits, hr, h', Cfg.current]
 
 theorem allocBy_reg_plain (s : St) (a : Addr) {k : Kind} (marks order : List Addr)
     (hk : k ≠ .raw) (hr : s.running = true) (ht : ¬ s.reg.length + 1 > s.mitems) :
@@ -391,12 +394,20 @@ theorem inv_step {g : Ghost} {s : St} (hI : Inv g s) (op : Op) (hok : OpOk g op)
   | own a owned =>
     refine ⟨hI.congr rfl rfl rfl rfl, ⟨[], by simp [step]⟩, fun _ h => h⟩
   | dtor a l => exact absurd hnd (by simp [Op.isDtor])
+  | markAbort marks =>
+    refine ⟨hI.congr rfl rfl rfl rfl, ⟨[], by simp [step]⟩, fun _ h => h⟩
+  | nulldel a =>
+    refine ⟨hI.congr rfl rfl rfl rfl, ⟨[], by simp [step]⟩, fun _ h => h⟩
+  | delNull =>
+    obtain ⟨h1, h2, h3, _, h5, h6, _⟩ := gcRemNull_fields Cfg.current s
+    exact ⟨hI.congr h1 h2 h5 h6, ⟨[], by show (gcRemNull Cfg.current s).log = _; simp [h5]⟩,
+      fun _ hr => by show (gcRemNull Cfg.current s).running = true; rw [h3, hr]⟩
   | collect marks order =>
     obtain ⟨h1, D, E, he, _⟩ := inv_sweep hI marks order
-    exact ⟨h1, ⟨E, he.log⟩, fun _ hr => by show (sweep _ _ _ _).running = true; rw [he.running, hr]⟩
+    exact ⟨h1, ⟨E, he.log⟩, fun _ hr => by show (sweep Cfg.current s marks order).running = true; rw [he.running, hr]⟩
   | teardown order =>
     obtain ⟨h1, D, E, he, _⟩ := inv_sweep hI [] order
-    exact ⟨h1, ⟨E, he.log⟩, fun _ hr => by show (sweep _ _ _ _).running = true; rw [he.running, hr]⟩
+    exact ⟨h1, ⟨E, he.log⟩, fun _ hr => by show (sweep Cfg.current s [] order).running = true; rw [he.running, hr]⟩
   | dealloc a k =>
     obtain ⟨h1, h2, h3⟩ := inv_finalise_raw hI a hok
     exact ⟨h1, h2, fun _ => h3⟩
